@@ -32,6 +32,33 @@ CHECKS: Dict[str, Dict[str, str]] = {
         "itself (self-validated by 22 variants in the thorough tier).",
         design="3/C05",
     ),
+    "C11": dict(
+        technique="static analysis: path-condition extraction of the two cross-definition checks into propositional formulas "
+        "over accessor-comparison atoms, compared with the Specification on all consistent valuations; structural "
+        "extraction of the grouping loops and of the check scopes",
+        text="The cross-definition checks touch definitions only through comparisons of a few accessors, so each decision is a "
+        "function of finitely many atoms: the collision predicate (9 atoms, 280 consistent valuations) and the pairwise "
+        "minor-version predicate (10 atoms, 640 valuations, including recursion into service halves and the error class) are "
+        "extracted from the source and compared exhaustively with the Specification; the grouping (full name, then major, "
+        "all distinct pairs) and the scopes (collisions over direct, compatibility over direct + transitive) are decided "
+        "structurally.",
+        note="Trusted: versions are non-negative integers (C05.R3); minors of a compared pair differ (grouping + one definition per "
+        "version); the extractor (12 self-validation variants).",
+        design="3/C11",
+    ),
+    "C02": dict(
+        technique="static analysis: dataflow extraction + constant folding of the prefix / tag / header width expressions over "
+        "every capacity and variant-count class; layout definitions translated to terms of the bit-length-set algebra and "
+        "compared with the Specification's terms",
+        text="Implicit-field widths are folded from the extracted expressions for 189 capacities x 2 alignments and 95 variant "
+        "counts x 2 alignments (both sides of every 2**8/2**16/2**32 boundary) and compared with 'smallest of 8/16/32/64'; "
+        "alignment definitions are folded over the reachable alignment domain; every bit_length_set definition and both "
+        "aggregation helpers are translated into algebra terms (pad/repeat/repeat_range/concatenate/unite) and must equal "
+        "the Specification's term, which decides dropped or misplaced padding, tag, prefix and the field-independence of "
+        "delimited types. Does not decide the arithmetic of the algebra itself (C01).",
+        note="Trusted: the bit-length-set algebra implements its operators (C01); reachable alignments are {1, 8}; capacities < 2**64.",
+        design="3/C02",
+    ),
 }
 
 NOT_APPLICABLE: Dict[str, str] = {}
